@@ -89,6 +89,23 @@ def run(pid, tier, replay=None):
                 chk.violation("C17:proof_does_not_reproduce_commitment", {"n": n, "i": i})
             elif not match_proof(pr, proofs[(n, i)], leaves, i):
                 chk.model_drift("proof shape for n=%d i=%d differs from Merkle!Proof" % (n, i))
+    # the commitment is a function of the list: committing does not alter the list it is given (the same list object is committed to twice,
+    # then its tree and its proofs are built from it)
+    for n in range(1, maxshape + 1):
+        leaves = [indep.sha256d(b"same%d.%d" % (n, i)) for i in range(n)]
+        keep = list(leaves)
+        r1 = M.get_merkle_root(leaves)
+        r2 = M.get_merkle_root(leaves)
+        tree = M.get_merkle_tree(leaves)
+        chk.case(("same_list", n))
+        if leaves != keep:
+            chk.violation("C17:computing_the_commitment_changes_the_list_it_commits_to", {"n": n, "entries_left": len(leaves)})
+        elif r1 != r2 or tree.hash() != r1:
+            chk.violation("C17:same_list_different_commitment", {"n": n})
+        else:
+            pr = safe_proof(M, tree, n - 1)
+            if pr is None or not has_leaf(pr, keep[n - 1], n - 1) or pr.hash() != r1:
+                chk.violation("C17:proof_lacks_the_entry", {"n": n, "i": n})
     chk.sample({"n": 5, "tree_shape": shapes[5], "proof_of_3": proofs[(5, 3)]})
 
     # ---- code -> spec: edited lists, TLC judges "same commitment only for the same list"
